@@ -170,16 +170,22 @@ def run(tier):
     # model with ServerHvr = TRUE (checked for Converge as well). Outcome comparison only (the reference emits no
     # hook events).
     sh = os.path.join(d, "sched_hvr.ndjson")
-    _run_tlc(ck, "pinned_hvr_b1_gen", spec="FairSpec", deviations=dc.OPEN_DEVIATIONS, net_kinds=ALL_KINDS, net_budget=1,
-             invariants=INV, properties=["Converge"], emit="EmitSched", tags=("SCHED",), sinks={"SCHED": sh}, workers=1,
-             server_hvr=True)
+    #   reference server: cookie exchange, anti-replay window, and it never resends its final flight once it has
+    #   finished (that is the deviation NoFinalFlightResend, here a property of the *peer*): convergence is required
+    #   unless the schedule loses that flight (ConvergeRefS)
+    _run_tlc(ck, "refS_b1_gen", spec="FairSpec", deviations=dc.OPEN_DEVIATIONS + ["NoFinalFlightResend"],
+             net_kinds=ALL_KINDS, net_budget=1, invariants=INV, properties=["ConvergeRefS"], emit="EmitSched",
+             tags=("SCHED",), sinks={"SCHED": sh}, workers=1, server_hvr=True, anti_replay=["S"])
+    #   reference client (anti-replay window) against rustrtc's server
+    _run_tlc(ck, "refC_b1", spec="FairSpec", deviations=dc.OPEN_DEVIATIONS, net_kinds=ALL_KINDS, net_budget=1,
+             invariants=INV, properties=["Converge"], anti_replay=["C"])
     ref_s = [dict(x, id=x["id"] + "-refS", peer="refS") for x in dc.scenarios_from_sched(vlib.read_ndjson(sh), TICK_MS, DEADLINE_MS)]
     ref_c = [dict(x, id=x["id"] + "-refC", peer="refC") for x in singles]
     if thorough:
         sh2 = os.path.join(d, "sched_hvr_b2.ndjson")
-        _run_tlc(ck, "pinned_hvr_b2_sim", spec="Spec", deviations=dc.OPEN_DEVIATIONS, net_kinds=ALL_KINDS, net_budget=2,
-                 invariants=INV, emit="EmitSched", tags=("SCHED",), sinks={"SCHED": sh2}, workers=1, simulate=2000, depth=140,
-                 timeout=900, server_hvr=True)
+        _run_tlc(ck, "refS_b2_sim", spec="Spec", deviations=dc.OPEN_DEVIATIONS + ["NoFinalFlightResend"], net_kinds=ALL_KINDS,
+                 net_budget=2, invariants=INV, emit="EmitSched", tags=("SCHED",), sinks={"SCHED": sh2}, workers=1,
+                 simulate=2000, depth=140, timeout=900, server_hvr=True, anti_replay=["S"])
         ref_s += [dict(x, id=x["id"] + "-refS", peer="refS")
                   for x in dc.scenarios_from_sched(vlib.read_ndjson(sh2), TICK_MS, DEADLINE_MS, always_empty=False)
                   if len(x["ops"]) == 2][:400]
@@ -282,11 +288,18 @@ def selftest():
     """Negative controls on the model: each deviation of the pinned tree that was fixed violates Converge."""
     ck = vlib.Check(PID + "-selftest", "quick")
     ok = True
-    for dev, budget in (("NoFinalFlightResend", 1), ("LastFlightOmitsCKE", 1), ("ReassemblyIgnoresOffset", 2)):
+    for dev, budget, ref in (("NoFinalFlightResend", 1, False), ("LastFlightOmitsCKE", 1, False),
+                             ("ReassemblyIgnoresOffset", 2, False), ("PostHvrAdoptsAnySeq", 1, True),
+                             ("RetransmitReusesRecordSeq", 1, True)):
         path = _cfg("selftest")
-        dc.write_mc_cfg(path, spec="FairSpec", deviations=dc.OPEN_DEVIATIONS + [dev],
-                        net_kinds=ALL_KINDS if budget == 1 else ["hold1", "split3"], net_budget=budget,
-                        max_ord=2 if budget == 1 else 1, invariants=INV, properties=["Converge"])
+        if ref:   # deviations that only show against a cookie-exchanging, replay-protecting server
+            dc.write_mc_cfg(path, spec="FairSpec", deviations=dc.OPEN_DEVIATIONS + ["NoFinalFlightResend", dev],
+                            net_kinds=["drop", "hold2"], net_budget=1, invariants=INV, properties=["ConvergeRefS"],
+                            server_hvr=True, anti_replay=["S"])
+        else:
+            dc.write_mc_cfg(path, spec="FairSpec", deviations=dc.OPEN_DEVIATIONS + [dev],
+                            net_kinds=ALL_KINDS if budget == 1 else ["hold1", "split3"], net_budget=budget,
+                            max_ord=2 if budget == 1 else 1, invariants=INV, properties=["Converge"])
         res = vlib.tlc("MC_DtlsHandshake", os.path.basename(path), workers=6, timeout=900, tag="c11_selftest")
         os.remove(path)
         hit = any("Converge" in e for e in res["errors"])
